@@ -188,7 +188,7 @@ func runE2E(b Beh, seed int64) ([]J, error) {
 				o["res"] = "refused"
 				o["err"] = err.Error()
 			}
-		case "Read", "Sub", "Unsub", "Write", "Remove":
+		case "Read", "Sub", "Unsub", "Write", "Remove", "Add":
 			cs, err := conn(s.K)
 			if err != nil {
 				return nil, err
@@ -203,6 +203,16 @@ func runE2E(b Beh, seed int64) ([]J, error) {
 			case "Write":
 				body, _ := json.Marshal(J{"characteristics": []J{{"aid": 1, "iid": sw.Switch.On.ID, "value": fmt.Sprint(s.X) == "1"}}})
 				m, err = cs.c.Do("PUT", "/characteristics", ref.CTJSON, body)
+			case "Add":
+				var t ref.TLV
+				id := ids[fmt.Sprint(s.X)]
+				t.AddByte(ref.TagState, 1)
+				t.AddByte(ref.TagMethod, 3)
+				t.Add(ref.TagIdentifier, []byte(id.Name))
+				t.Add(ref.TagPublicKey, []byte(id.Pub))
+				t.AddByte(ref.TagPermission, 1)
+				cs.c.Timeout = 8 * time.Second
+				m, err = cs.c.Do("POST", "/pairings", ref.CTTLV, t.Encode())
 			case "Remove":
 				var t ref.TLV
 				t.AddByte(ref.TagState, 1)
